@@ -210,6 +210,36 @@ def l2_l4(prog, rep):
     rep.check(ok, "L4-position", "AES-NI stream: same partial/whole/tail structure as the portable one; whole blocks only when buflen >= 16", sn.loc, "%s" % seq, function=sn.name, construct="aesni-stream")
 
 
+def l5_total(prog, rep):
+    """The stream functions are total over their data arguments: no assertion or abort path whose condition depends on the input
+    or output buffer's address or on the length (the property promises bytes for every sequence of calls, including buffers
+    that touch, in-place operation and zero lengths).  Assertions about the key pointer and about the stream's own position
+    invariant are not about the data arguments and are allowed."""
+    n = 0
+    for up, u in prog.units.items():
+        if not up.startswith("crypto/crypto_aesctr"):
+            continue
+        for f in u.funcs:
+            if f.file != up:
+                continue
+            data = set()
+            for p in f.params:
+                t = u.types.get(p["ty"]) or {}
+                pt = u.types.get(t.get("pointee", "")) or {}
+                if (t.get("kind") == "ptr" and pt.get("size") == 1 and pt.get("kind") == "int") or t.get("kind") == "int":
+                    data.add(("v", p["name"], p["id"]))
+            for c in f.calls():
+                if c.callee not in ("abort", "__assert_fail", "__assert"):
+                    continue
+                n += 1
+                at = [(op, L, R) for cond, truth in f.edge_conds(c) for op, L, R, _, _ in cond_atoms(cond, truth)]
+                dep = [a for a in at if any(t in data for t in list(subterms(a[1])) + list(subterms(a[2])))
+                       and not (a[2] == ("c", 0) and a[1] in data and a[0] in ("==", "!=") and False)]
+                rep.check(not dep, "L5-total", "%s: the assertion at line %d does not depend on the data arguments" % (f.name, c.line), c.where,
+                          "the function aborts for some (input, output, length): %s" % [(o, show(l), show(r)) for o, l, r in dep][:3], function=f.name, construct="data-assert")
+    return n
+
+
 def run(tier):
     rep = report.Report("C02", tier,
         "Decided: the counter block is written only by the agreed writers and has the layout nonce_be64 || blockindex_be64 in both the "
@@ -238,6 +268,7 @@ def run(tier):
     if ok:
         l1_l3(prog, rep)
         l2_l4(prog, rep)
+        l5_total(prog, rep)
     # which implementation runs: the AES-NI stream code may be selected only when the key layer has validated and selected
     # AES-NI too (both work on the same expanded-key object); dispatch-safety rules shared with C03
     from . import c03
